@@ -449,6 +449,21 @@ func CondRelation(a, b *Cond) (aImpB, bImpA bool, witness string) {
 	cv := &condVars{bases: map[string]map[int64]bool{}, bools: map[string]bool{}}
 	collect(a, cv)
 	collect(b, cv)
+	// an atom outside the fragment that occurs on both sides is the same unknown on both sides:
+	// it is enumerated like a named atom, not projected away separately
+	{
+		ca := &condVars{bases: map[string]map[int64]bool{}, bools: map[string]bool{}}
+		cb := &condVars{bases: map[string]map[int64]bool{}, bools: map[string]bool{}}
+		collect(a, ca)
+		collect(b, cb)
+		for nm := range cv.bools {
+			if _, inA := ca.bools[nm]; inA {
+				if _, inB := cb.bools[nm]; inB {
+					cv.bools[nm] = false
+				}
+			}
+		}
+	}
 	var baseNames []string
 	reps := map[string][]int64{}
 	for bn, ts := range cv.bases {
